@@ -120,10 +120,9 @@ def do_assemble(text, wd, tag, w=64, use_stl=True, version=1, werror=False, max_
     d.mkdir(exist_ok=True)
     src = d / (filename or f'{tag}.fj')   # a fixed file name: the same path assembled again by a later call of the history
     src.write_text(text)
-    out, dbg = d / f'{tag}.fjm', d / f'{tag}.fjd'
-    for p in (out, dbg):
-        if p.exists():
-            p.unlink()
+    # every assembly of the process writes to the SAME two output paths, over whatever the previous one left there (a smaller output after a
+    # bigger one included): the bytes of an output file are a function of this call's inputs only
+    out, dbg = d / 'out.fjm', d / 'out.fjd'
     tuples = get_file_tuples([str(src.absolute())], no_stl=not use_stl)
     nstl = len(tuples) - 1
     if stl_prefix is not None:
